@@ -14,6 +14,8 @@ def ty (s : String) : Except String Ty :=
   | "null" => .ok .null | "string" => .ok .string | "boolean" => .ok .boolean | "byte" => .ok .byte
   | "short" => .ok .short | "int" => .ok .int | "long" => .ok .long | "float" => .ok .float
   | "double" => .ok .double | "date" => .ok .date | "timestamp" => .ok .timestamp
+  | "binary" => .ok .binary | "decimal" => .ok .decimal | "arrayL" => .ok .arrayL | "arrayS" => .ok .arrayS
+  | "mapL" => .ok .mapL | "mapS" => .ok .mapS | "structL" => .ok .structL | "structS" => .ok .structS
   | _ => .error "type"
 
 def handle (j : Json) : Json := run do
@@ -55,7 +57,7 @@ def handle (j : Json) : Json := run do
     match castNull f t with
     | some none => return Json.mkObj [("model", Json.null)]
     | some (some s) => return Json.mkObj [("model", Json.mkObj [("str", s)])]
-    | none => return Json.mkObj [("model", Json.mkObj [("exc", "AnalysisException")])]
+    | none => return Json.mkObj [("model", Json.mkObj [("refused", true)])]
   | _ => throw "op"
 
 end Driver.C18
